@@ -268,7 +268,10 @@ func (p *Parser) Documents() []*Document {
 // outputDocument returns the output objects generated by the specified
 // document.
 func (p *Parser) outputDocument(doc *Document) ([]any, error) {
-	docs, err := doc.Process(p.docs)
+	// Evaluate a copy: output must not modify the merged documents.
+	work := &Document{ID: doc.ID, Parents: doc.Parents, Data: cloneValue(doc.Data)}
+
+	docs, err := work.Process(p.docs)
 	if err != nil {
 		return nil, err
 	}
